@@ -1,5 +1,6 @@
 import PcfgVerif.Properties.ReproCore
 import PcfgVerif.Properties.PQCore
+import PcfgVerif.Properties.ReproEndToEnd
 /-!
 # C03 — every supported training password is reproduced by the trained grammar
 
@@ -46,5 +47,26 @@ theorem C03_mass (bp : Rat) (cols : List (List (Rat × Nat))) (h : ∀ c ∈ col
 theorem C03_mass_product (cols : List (List (Rat × Nat))) :
     ((allIdx (cols.map fun c => c.map (·.1))).map (nodeMass cols)).sum = (cols.map colMass).prod :=
   mass_product cols
+
+/-- **end to end** (the links above composed with C05 and C13's coherence, on the detector model): a
+training password without e-mail / website segments, whose segments — words lower-cased, masks, digits,
+symbols, years, keyboard walks, context strings — and whose base structure are listed in the ruleset
+(`AllListed`: what C06 guarantees for everything the parser tallied), is one of the guesses of a
+pre-terminal of the guesser's grammar loaded from the same files — with its original capitalisation and
+every non-ASCII letter, for every Unicode environment with length-preserving lower-casing; domain clause
+`CaseInvAll` (one-to-one case mapping on the password).  That pre-terminal is emitted by
+`C03_preterminal_emitted`. -/
+theorem C03_reproduced {P : Type} (M : Detect.CMon P)
+    (hnzd : ∀ a b, a ≠ M.zero → b ≠ M.zero → M.mul a b ≠ M.zero) (hone : M.one ≠ M.zero)
+    (U : Detect.UEnv) (upper : Char → List Char) (cfg : Detect.MWCfg) (t : Detect.MWTable) (pw : CPs)
+    (hne : pw ≠ []) (hl : Detect.LenPres U pw) (hsc : Detect.ScalarCPs pw)
+    (hcase : Detect.CaseInvAll U upper pw)
+    (g : Detect.ScoreG P) (V : Detect.GView P) (hag : Detect.Agree M.zero g V)
+    (he : (Detect.parse U cfg t pw).emails = []) (hw : (Detect.parse U cfg t pw).websites = [])
+    (hs : (Detect.parse U cfg t pw).supported = true)
+    (hin : Detect.AllListed M.zero g (Detect.parse U cfg t pw)) :
+    ∃ (reps : List String) (bp : P) (idx : List Nat), (reps, bp) ∈ V.bases ∧ idx.length = reps.length ∧
+      Detect.toStr pw ∈ productSpec upper V.E [] (Detect.mkPT reps idx) :=
+  Detect.trained_password_reproduced M hnzd hone U upper cfg t pw hne hl hsc hcase g V hag he hw hs hin
 
 end Pcfg.C03
